@@ -465,7 +465,7 @@ func cliWork(line string) string {
 	}
 
 	var cwdsf []string
-	var exits, named, wrs, diffs, outs, jss, oms, trs, vrs, ems, logs, jsons, reports []string
+	var exits, named, wrs, diffs, outs, jss, oms, trs, vrs, ems, logs, jsons, reports, canons, raws []string
 	for _, s := range c.steps {
 		for _, e := range s.edits {
 			p := filepath.Join(home, filepath.FromSlash(e.path))
@@ -684,11 +684,19 @@ func cliWork(line string) string {
 		ems = append(ems, joinOr(em, ","))
 		logs = append(logs, joinOr(marks, ","))
 		jsons = append(jsons, jflat)
+		if kind == "json" {
+			// the report byte for byte: the model writes the same bytes for the content read from them (CANON)
+			canons = append(canons, "ok")
+			raws = append(raws, hx(stdout))
+		} else {
+			canons = append(canons, "-")
+			raws = append(raws, "-")
+		}
 		reports = append(reports, hx(report))
 	}
 	j := func(xs []string) string { return strings.Join(xs, " / ") }
-	return fmt.Sprintf("EXIT %s ; NAMED %s ; WR %s ; OUT %s ; JS %s ; OM %s ; TR %s ; VR %s ; EM %s ; LOG %s ; DIFF %s ; JSON %s ; REPORT %s ; CWDSF %s",
-		j(exits), j(named), j(wrs), j(outs), j(jss), j(oms), j(trs), j(vrs), j(ems), j(logs), j(diffs), j(jsons), j(reports), j(cwdsf))
+	return fmt.Sprintf("EXIT %s ; NAMED %s ; WR %s ; OUT %s ; JS %s ; OM %s ; TR %s ; VR %s ; EM %s ; LOG %s ; DIFF %s ; JSON %s ; REPORT %s ; CWDSF %s ; CANON %s ; RAW %s",
+		j(exits), j(named), j(wrs), j(outs), j(jss), j(oms), j(trs), j(vrs), j(ems), j(logs), j(diffs), j(jsons), j(reports), j(cwdsf), j(canons), j(raws))
 }
 
 // ---------------------------------------------------------------------------------------------
@@ -794,9 +802,15 @@ func (g *gen) genCmd(ti, ci, failPct int, lit map[string]string) cmdSpec {
 	switch shape {
 	case 9:
 		// text that looks like JSON escapes, HTML and format verbs: it must come back from the report byte for byte
-		txt := g.pick(`a\u0026b`, `x\u003cy\u003e`, `<b>&amp;</b>`, `100%d%s`, `q\"uote\\`, `tab\there`)
+		txt := g.pick(`a\u0026b`, `x\u003cy\u003e`, `<b>&amp;</b>`, `100%d%s`, `q\"uote\\`, `tab\there`, "del\x7fete")
 		src += "; echo '" + txt + "'"
 		k.out = txt + "\n"
+		if g.chance(1, 6) {
+			// text beyond ASCII — with the line and paragraph separators, which json.Marshal escapes — can only come from a
+			// command's OUTPUT: the text of a command is ASCII (anything else is a syntax error)
+			src += `; printf 'line\342\200\250sep\342\200\251par\n\357\277\275 is a rune too\ngr\303\274\303\237e \342\206\222 \342\234\223 \360\237\230\200\n'`
+			k.out += "line\u2028sep\u2029par\n\ufffd is a rune too\ngr\u00fc\u00dfe \u2192 \u2713 \U0001F600\n"
+		}
 	case 0:
 	case 1:
 		src += "; echo o" + mark
